@@ -34,7 +34,12 @@ def main():
             shutil.copy('/repo/' + x, scratch + '/' + x)
     res = {'id': sid, 'property': prop, 'steps': {}}
     demo = os.path.join(sd, 'demo.c')
-    san = '-fsanitize=address,undefined' if 'sanitize' in open(os.path.join(sd, 'README.txt')).read() else ''
+    readme = open(os.path.join(sd, 'README.txt')).read()
+    san = ''
+    import re
+    mm = re.search(r'-DCAT_UNSOLICITED_CMD_BUFFER_SIZE=(\d+)', readme + open(demo).read())
+    if mm:
+        san += ' -DCAT_UNSOLICITED_CMD_BUFFER_SIZE=%s' % mm.group(1)
 
     def run_demo(tag):
         r = sh('gcc -g %s -I%s/src %s %s/src/cat.c -o %s/demo_%s && %s/demo_%s' % (san, scratch, demo, scratch, scratch, tag, scratch, tag), timeout=300)
